@@ -1,6 +1,8 @@
 """Obligations, reports, evidence files, known findings, exit codes."""
 from __future__ import annotations
 
+import ast
+
 import json
 import os
 import sys
@@ -88,6 +90,27 @@ class Report:
                                     "an anchor vanished or an idiom is no longer recognised" % (rid, n, floor))
 
 
+def inline_policy(res: "Resolver"):
+    """Calls to package functions that are not part of the pinned inventory (helpers a later change extracted)
+    are spliced into the enumerated paths; the pinned functions are summarised by the rules that know them."""
+    from .inventory import KNOWN_FUNCS
+
+    def policy(call: ast.Call, fn):
+        try:
+            ct = res.resolve_call(call, fn)
+        except Exception:
+            return None
+        if ct.unresolved or ct.ctor is not None or ct.ext or len(ct.funcs) != 1:
+            return None
+        g = ct.funcs[0]
+        if g.is_lambda or g.qualname in KNOWN_FUNCS:
+            return None
+        if any(isinstance(n, (ast.Yield, ast.YieldFrom)) for n in ast.walk(g.node)):
+            return None
+        return g
+    return policy
+
+
 class Ctx:
     """Shared program model for the rules of one run."""
 
@@ -96,6 +119,9 @@ class Ctx:
         self.prog = Program(repo)
         self.res = Resolver(self.prog)
         self._cache: Dict[str, Any] = {}
+        from . import paths, astutil
+        paths.DEFAULT_INLINE[0] = inline_policy(self.res)
+        astutil.register_functions(self.prog.functions)
 
     def memo(self, key: str, build: Callable[[], Any]):
         if key not in self._cache:
